@@ -75,24 +75,18 @@ def parse(s, cfg):
 XMLID = "{http://www.w3.org/XML/1998/namespace}id"
 
 
-def moves_xmlid(L, script):
-    """some MoveNode of the script moves a subtree in which an element carries xml:id (the script is replayed with
-    xmldiff.patch.Patcher on a copy of the prepared left tree to find the moved node)"""
-    from xmldiff import patch
-    if not any(type(a).__name__ == "MoveNode" for a in script):
+def dup_xmlid(t):
+    """in the output tree an element carrying xml:id is kept as diff:delete (itself or an ancestor is marked diff:delete: a
+    deleted node, or the original of a move) while the same id value is on another element of the result"""
+    if t is None:
         return False
-    t, p = deepcopy(L), patch.Patcher()
-    for a in script:
-        try:
-            if type(a).__name__ == "MoveNode":
-                ns = {k: v for k, v in t.nsmap.items() if k}
-                n = t.xpath(a.node, namespaces=ns)[0]
-                if any(XMLID in e.attrib for e in n.iter() if isinstance(e.tag, str)):
-                    return True
-            p.handle_action(a, t)
-        except Exception:  # noqa
-            return False
-    return False
+    root = t.getroot() if hasattr(t, "getroot") else t
+    ids = {}
+    for e in root.iter():
+        if isinstance(e.tag, str) and XMLID in e.attrib:
+            dead = any((D + "delete") in a.attrib for a in [e] + list(e.iterancestors()))
+            ids.setdefault(e.get(XMLID), []).append(dead)
+    return any(len(v) > 1 and any(v) for v in ids.values())
 
 
 def diffns_in_input(c):
@@ -135,11 +129,11 @@ def run_impl(c):
         if c.get("mutate") is not None:
             script = mutate_script(random.Random(c["mutate"]), script)
         c["script"] = script
-        c["moves_xmlid"] = moves_xmlid(L, script)
         try:
             out = fm.format(script, L)
             c["out_str"] = out
             c["out"] = xcanon(fm.captured)
+            c["dup_xmlid"] = dup_xmlid(fm.captured)
         except Exception as ex:  # noqa
             c["exc"] = excname(ex)
             c["exc_msg"] = str(ex)[:200]
@@ -465,8 +459,8 @@ def repeated_formatting(c):
 def key_C08(c, msg=""):
     if diffns_in_input(c):
         return "diff-namespace-in-input"
-    if "does not parse as XML" in msg and "already defined" in msg and c.get("moves_xmlid"):
-        return "moved-node-with-xml-id"
+    if "does not parse as XML" in msg and "already defined" in msg and c.get("dup_xmlid"):
+        return "duplicate-xml-id-in-output"
     if reserved_prefix(c):
         return "reserved-ns-prefix-on-root"
     if c["cfg"]["replace"] and c["cfg"]["tt"]:
@@ -695,11 +689,12 @@ def gen_struct(rng, n):
         L, R = gen.gen_pair(rng, 8, ns=ns, comments=True, words=WORDS if rng.random() < 0.6 else None)
         l, r = xml(L), xml(R)
         if rng.random() < 0.12:
-            # xml:id on a few elements, unique across both documents (an id value that sits on a deleted element and on
-            # another element of the right document is reported separately); where such a node moves the case falls
-            # under the open finding moved-node-with-xml-id
-            l = add_xmlids(rng, l, "idL")
-            r = add_xmlids(rng, r, "idR")
+            # xml:id on a few elements (unique within each document); where an id-bearing element is moved or deleted and
+            # the id is on another element of the result, the case falls under the open finding duplicate-xml-id-in-output
+            st = rng.getstate()
+            l = add_xmlids(rng, l)
+            rng.setstate(st)
+            r = add_xmlids(rng, r)
         out.append({"kind": "struct", "left": l, "right": r, "cfg": rand_cfg(rng),
                     "opts": rng.choice(gen.OPTION_SETS), "late": rng.random() < 0.15})
     return out
@@ -870,10 +865,13 @@ def gen_reserved():
 
 
 XMLID_STREAM = [
-    # a moved subtree carries xml:id: the output has the id twice and does not re-parse (open finding moved-node-with-xml-id)
+    # an element carrying xml:id is kept as diff:delete (moved or deleted) next to another element with the same id: the
+    # output has the id twice and does not re-parse (open finding duplicate-xml-id-in-output)
     ('<r><a><b xml:id="n1">t</b></a><c/></r>', '<r><a/><c><b xml:id="n1">t</b></c></r>'),
     ('<r><a><b><k xml:id="n2"/>t</b></a><c/></r>', '<r><a/><c><b><k xml:id="n2"/>t</b></c></r>'),
     ('<r><a xml:id="x"><p>one</p></a><b><q>two</q></b></r>', '<r><b><q>two</q><a xml:id="x"><p>one</p></a></b></r>'),
+    ('<r><a xml:id="n"/></r>', '<r xml:id="n"/>'),
+    ('<r><a xml:id="n">t</a><b/></r>', '<r><b xml:id="n">u</b></r>'),
     # xml:id on nodes that do NOT move: must re-parse
     ('<r><a><b xml:id="n1">t</b></a><c/></r>', '<r><a><b xml:id="n1">u</b></a><c/><d/></r>'),
     ('<r xml:id="top"><a xml:id="n1"/><b/></r>', '<r xml:id="top"><b/><a xml:id="n1" k="v"/></r>'),
@@ -1247,7 +1245,7 @@ def main(run, focus):
                 "documents with several same-tag sibling sections where an earlier section moves into a later one between inserts into "
                 "several of them (the same target path string denotes different parents along the script); the differ's scripts mutated (wrong paths, "
                 "positions, attribute names) for the error paths; xml:id (unique per document) on a share of the seeded documents; labelled "
-                "streams of inputs under the recorded findings (incl. moved xml:id-bearing subtrees, diff-namespace marks in the input); "
+                "streams of inputs under the recorded findings (incl. xml:id on moved / deleted elements, diff-namespace marks in the input); "
                 "for C08: one parsed left tree diffed against 2-3 revisions in sequence with fresh formatters, each diff compared with "
                 "the diff of a freshly parsed left tree.  DMP clock: "
                 "never late, or late at every test.  Compared exactly: both prepared trees (attribute order, None vs ''), the output "
